@@ -182,6 +182,9 @@ def run_check(prop, tier, seed, spec, work, t0):
     global TIER
     TIER = 1 if tier == "thorough" else 0
     jobs = spec["jobs"](tier) if callable(spec["jobs"]) else spec["jobs"][tier]
+    only = os.environ.get("VERIF_ONLY")
+    if only:
+        jobs = [dict(j, entries=[only]) for j in jobs[:1]]
     pkgs = sorted({j["pkg"] for j in jobs})
     dep_ov = {v: os.path.join(VERIF, r) for v, r in spec.get("dep_overlays", {}).items()}
     sym_ov, nat_ov = build_overlays(work, pkgs, dep_ov)
